@@ -378,7 +378,8 @@ Definition norm_r2c (m : r2c) : r2c :=
 
 (* ---- observation: long byte strings are compared by length, 64-byte prefix and checksum ---- *)
 Definition cksum (b : bytes) : N :=
-  fold_left (fun acc x => (acc * 31 + x + 1) mod 4294967291) b 0.
+  let '(s1, s2) := fold_left (fun '(s1, s2) x => let t := s1 + x + 1 in (t, s2 + t)) b (0, 0) in
+  s2 * 4294967296 + s1.
 Definition digest (b : bytes) : bytes :=
   if len b <=? 64 then b else firstn 64 b ++ [len b; cksum b].
 Definition digest_len (d : bytes) : N :=
@@ -396,8 +397,19 @@ Definition obs_c2r (m : c2r) : c2r :=
   | CDatagrams k d => CDatagrams k (obs_dg d)
   | m => m
   end.
-(* input helper of the harness: 7-bit text from a fill recipe *)
+(* input helpers of the harness: 7-bit text from a fill recipe; n bytes cycling through a block
+   (long payloads without per-byte arithmetic) *)
 Definition ascii7 (b : bytes) : bytes := map (fun x => x mod 128) b.
+Fixpoint rep_nat (blk cur : bytes) (n : nat) : bytes :=
+  match n with
+  | O => []
+  | S k =>
+      match cur with
+      | x :: r => x :: rep_nat blk r k
+      | [] => match blk with [] => [] | x :: r => x :: rep_nat blk r k end
+      end
+  end.
+Definition rep (blk : bytes) (n : N) : bytes := rep_nat blk blk (N.to_nat n).
 Definition rmap {A B} (f : A -> B) (x : res A) : res B :=
   match x with Ok a => Ok (f a) | Err e => Err e | Panic => Panic end.
 
@@ -496,17 +508,21 @@ Definition enc_monitor {M} (wf : bool) (sendable : bool) (expect : M) (meqb : M 
   (* what the sender's sink accepts, the receiver's decoder accepts *)
   (if is_ok sink && sendable then is_ok dec else true).
 
+(* Inputs outside the quantifier (terms that are not values of the Rust message types: wrong key or
+   ping length, non-byte elements, invalid UTF-8 text, segment size 0 ...) are vacuously fine. *)
 Definition monitor (i : input) (o : output) : bool :=
   match i, o with
   | IEncR v m, OEncR elen enc sink dec =>
       let ip := is_point_of (r2c_keys m) in
-      enc_monitor (wf_r2c ip v m) (typed_r2c ip m && version_ok v m) (obs_r2c m) r2c_eqb elen enc sink dec &&
+      if negb (typed_r2c ip m) then true else
+      enc_monitor (wf_r2c ip v m) (version_ok v m) (obs_r2c m) r2c_eqb elen enc sink dec &&
       (* frames of the other protocol version are rejected *)
-      (if typed_r2c ip m && negb (version_ok v m) && (r2c_payload_len m <=? MAXP)
+      (if negb (version_ok v m) && (r2c_payload_len m <=? MAXP)
        then res_eqb r2c_eqb dec (Err E_VERSION) else true)
   | IEncC m, OEncC elen enc sink dec =>
       let ip := is_point_of (c2r_keys m) in
-      enc_monitor (wf_c2r ip m) (typed_c2r ip m) (obs_c2r m) c2r_eqb elen enc sink dec
+      if negb (typed_c2r ip m) then true else
+      enc_monitor (wf_c2r ip m) true (obs_c2r m) c2r_eqb elen enc sink dec
   | IDecR v _ b, ODecR r =>
       (if bytes_ok b then negb (is_panic r) else true) &&
       match r with
